@@ -5,7 +5,7 @@ CONSTANTS
   MaxPos = 7
   NCols = 15
   Datasets = {"all", "neg", "pos", "nonneg", "single", "empty", "ties", "ties0"}
-  Vias = {"set", "setd", "imp", "imp1d"}
+  Vias = {"set", "imp1d"}
   Classes = {"Q"}
   Depth = 2
   Sample = FALSE
